@@ -489,6 +489,8 @@ class CPrinter:
         if s in self.ghost_fns or s.split('::')[-1] in self.ghost_fns:
             return self.ghost(s.split('::')[-1], e, env)
         args = [self.expr(a, env) for a in e.args]
+        if s.startswith('std::numeric_limits') and e.f.targs and isinstance(e.f.targs[0], Type) and strip_ns(e.f.targs[0].name) == 'int':
+            return {'min': '(-2147483647 - 1)', 'max': '2147483647', 'lowest': '(-2147483647 - 1)'}[s.split('::')[-1]]
         if s.startswith('std::numeric_limits'):
             what = s.split('::')[-1]
             self.fire('numeric_limits')
